@@ -7,7 +7,8 @@ W = 16
 def jobs(tier):
     q = tier == "quick"
     return [
-        Job("c20_dtx", "flt-asan", "random", workers=W, cases=12 if q else 300, maxtime=40 if q else 500),
+        Job("c20_dtx", "flt-asan", "random", workers=W, cases=80 if q else 600, maxtime=60 if q else 500),
+        Job("c20_dtx", "flt-opt", "random", workers=W, cases=160 if q else 1500, maxtime=60 if q else 400, seed_salt=7),
     ]
 
 
